@@ -4,7 +4,7 @@ use std::sync::Arc;
 
 
 use fe2o3_amqp_types::{
-    definitions::Role,
+    definitions::{Handle, Role},
     messaging::{Accepted, DeliveryState, Outcome},
     performatives::{Attach, Disposition, Transfer},
     primitives::OrderedMap,
@@ -29,6 +29,11 @@ pub(crate) struct TransactionManager {
     pub control_link_outgoing: mpsc::Sender<LinkFrame>,
     pub txns: OrderedMap<TransactionId, ResourceTransaction>,
     pub control_link_acceptor: Arc<ControlLinkAcceptor>,
+
+    /// Multi-transfer deliveries posted under a transaction that are not complete yet, by the
+    /// handle of their link: the transfers that follow belong to the same transaction even if
+    /// they do not repeat the transactional state
+    pub incomplete_posts: std::collections::BTreeMap<Handle, TransactionId>,
 }
 
 impl TransactionManager {
@@ -40,6 +45,7 @@ impl TransactionManager {
             control_link_outgoing,
             txns: OrderedMap::new(),
             control_link_acceptor: Arc::new(control_link_acceptor),
+            incomplete_posts: std::collections::BTreeMap::new(),
         }
     }
 }
